@@ -87,6 +87,10 @@ func (l *genericFileSessionLoader) Store(s *Session) error {
 	file.writeSession(s)
 	data, _ := json.Marshal(file)
 
+	// file is changing, so cached session is outdated: modification time is not enough to see it, if two
+	// sessions are stored within the same tick of filesystem's clock
+	l.cached = nil
+
 	return ioutil.WriteFile(l.path, data, 0600)
 }
 
